@@ -193,34 +193,7 @@ func runC15(r *Run) {
 	}
 	// --- isolation
 	if f := r.fn(P, pkgObserver, "Observer.process"); f != nil {
-		head := loopHead(f)
-		ok := head != nil
-		det := "no loop"
-		if head != nil {
-			// blocks of the loop body: dominated by head and able to reach head
-			of := r.E.Facts(f, core.Ctx{})
-			var leaks []string
-			for _, b := range f.Blocks {
-				if b == head || !head.Dominates(b) {
-					continue
-				}
-				if !blockReaches(of, b, head, nil) {
-					continue // not in the loop (exit part)
-				}
-				for _, s := range b.Succs {
-					if s != head && !blockReaches(of, s, head, nil) {
-						leaks = append(leaks, "an edge leaves the loop body at "+r.P.Pos(firstPos(s)))
-					}
-				}
-				for _, ins := range b.Instrs {
-					if _, isP := ins.(*ssa.Panic); isP {
-						leaks = append(leaks, "panic in loop body")
-					}
-				}
-			}
-			ok = len(leaks) == 0
-			det = strings.Join(leaks, "; ")
-		}
+		ok, det := r.loopBodyIsolated(f)
 		r.R.Check(ok, P+".isolation", "E8 loop isolation: the per-transaction loop body can only continue with the next transaction", core.FuncName(f), r.where(f),
 			"a return or break on a failing transaction stops all later transactions from being processed", "no exit from the loop body", det)
 		// each transaction processed with its own protocol version's processor
@@ -404,4 +377,35 @@ func (r *Run) checkCompensate(P string) {
 		}
 	}
 	r.R.Check(okEarly, P+".compensate.early", "E8: a failed unpublished-store add returns an error without the queue add having been executed", core.FuncName(po), r.where(po), why, "returns before the queue add", "queue add may already have happened")
+}
+
+// loopBodyIsolated: no edge leaves the body of f's (first) loop other than
+// through the loop head, and the body does not panic: one bad element cannot
+// stop the remaining elements from being processed.
+func (r *Run) loopBodyIsolated(f *ssa.Function) (bool, string) {
+	head := loopHead(f)
+	if head == nil {
+		return false, "no loop"
+	}
+	of := r.E.Facts(f, core.Ctx{})
+	var leaks []string
+	for _, b := range f.Blocks {
+		if b == head || !head.Dominates(b) {
+			continue
+		}
+		if !blockReaches(of, b, head, nil) {
+			continue // not in the loop (exit part)
+		}
+		for _, s := range b.Succs {
+			if s != head && !blockReaches(of, s, head, nil) {
+				leaks = append(leaks, "an edge leaves the loop body at "+r.P.Pos(firstPos(s)))
+			}
+		}
+		for _, ins := range b.Instrs {
+			if _, isP := ins.(*ssa.Panic); isP {
+				leaks = append(leaks, "panic in loop body")
+			}
+		}
+	}
+	return len(leaks) == 0, strings.Join(leaks, "; ")
 }
